@@ -681,7 +681,7 @@ pub fn run_game(ctx: &Ctx, rep: &mut Report, c10: bool, c11: bool) {
                     let f = promo[rng.below(promo.len())].clone();
                     (if rng.chance(1, 2) { f } else { f.mirror_v() }, Policy2::AvoidBreak, 250)
                 }
-                0 | 1 => (rev[rng.below(rev.len())].clone(), Policy2::Avoid, 260),
+                0 | 1 => (rev[rng.below(rev.len())].clone(), Policy2::Avoid, 300),
                 2 | 3 => (rev[rng.below(rev.len())].clone(), Policy2::Seek, 60),
                 4 => {
                     let p = if rng.chance(1, 2) { rev[rng.below(rev.len())].clone() } else { rev[rng.below(rev.len())].mirror_v() };
